@@ -899,6 +899,9 @@ func (fv *FuncVC) callAsserts(keys []string, ord int, args []*Val, callee *ssa.F
 		if ca.When != when || !matchKey(ca.Callee, keys) || (ca.Ord != 0 && ca.Ord != ord) {
 			continue
 		}
+		if when == "before" && !fv.localsInScope(ca.Clause.Expr) {
+			continue // a local the clause names is declared after this call: not a site the clause is about (scope.go)
+		}
 		env := &Env{fv: fv, st: fv.cur, old: fv.entry, vars: map[string]*Val{}, locals: true, at: fv.curBlock, allocOld: fv.heapEntry("alloc", "Int")}
 		for k, v := range fv.params {
 			env.vars[k] = v
